@@ -1,19 +1,119 @@
 """H-PROF: the real profile_table_for_join on a table whose per-column counts are symbolic.
 
 `len(table)` = n, `len(table[attr].unique())` = u_attr, `sum(pd.isnull(table[attr]))` = m_attr are
-integral IEEE doubles constrained to be realisable (1 <= n <= 2^B, 0 <= m <= n, the distinct count
-compatible with m missing values counting as one value).  The profiler's own float arithmetic
-(`float(u)/float(n)*100`, `round(.,2)`) runs on the E1 proxies; its `if`s are pathsym decisions over
-the FP terms.  Counting itself (Series.unique / isnull) is pandas and outside the claim.
+symbolic **bit-vector integers** (W bits) constrained to be realisable (1 <= n <= 2^B, 0 <= m <= n,
+the distinct count compatible with m missing values counting as one value).  `float(count)` is the
+exact conversion to an IEEE double; the profiler's own float arithmetic (`float(u)/float(n)*100`,
+`round(.,2)`) runs on the E1 proxies; its `if`s are pathsym decisions over QF_BVFP terms (fresh
+non-incremental z3 per check).  Counting itself (Series.unique / isnull) is pandas and outside the claim.
 """
 import z3
 
 from engine import repo
 from engine.numkernel import fp
 from engine.pathsym import pdmodel
-from engine.pathsym.core import SymBool, Violation, ctx
+from engine.pathsym.core import SymBool, Violation
 
 KEY_COMMENT = 'This attribute can be used as a key attribute.'
+W = 26          # bit width of the counts (values stay below 2^22, no wrap-around)
+ZERO = z3.BitVecVal(0, W)
+ONE = z3.BitVecVal(1, W)
+
+
+def _bv(x):
+    if isinstance(x, BVInt):
+        return x.t
+    if isinstance(x, bool):
+        return z3.BitVecVal(int(x), W)
+    if isinstance(x, int):
+        return z3.BitVecVal(x, W)
+    return None
+
+
+class BVInt(object):
+    """a Python int carried as a W-bit unsigned bit-vector (counts)."""
+    __slots__ = ('t',)
+
+    def __init__(self, t):
+        self.t = t
+
+    def _bin(self, o, f):
+        ot = _bv(o)
+        if ot is None:
+            return NotImplemented
+        return BVInt(f(self.t, ot))
+
+    def __add__(self, o):
+        return self._bin(o, lambda a, b: a + b)
+
+    def __radd__(self, o):
+        return self._bin(o, lambda a, b: b + a)
+
+    def __sub__(self, o):
+        return self._bin(o, lambda a, b: a - b)
+
+    def __rsub__(self, o):
+        return self._bin(o, lambda a, b: b - a)
+
+    def __mul__(self, o):
+        if isinstance(o, (float, fp.SymFP)):
+            return as_float(self) * o
+        return self._bin(o, lambda a, b: a * b)
+
+    __rmul__ = __mul__
+
+    def __truediv__(self, o):
+        return as_float(self) / (as_float(o) if isinstance(o, BVInt) else o)
+
+    def __rtruediv__(self, o):
+        return o / as_float(self)
+
+    def _cmp(self, o, f):
+        ot = _bv(o)
+        if ot is None:
+            if isinstance(o, (float, fp.SymFP)):
+                x = as_float(self)
+                return {'lt': x < o, 'le': x <= o, 'gt': x > o, 'ge': x >= o, 'eq': x == o, 'ne': x != o}[f]
+            return NotImplemented
+        t = {'lt': z3.ULT, 'le': z3.ULE, 'gt': z3.UGT, 'ge': z3.UGE,
+             'eq': lambda a, b: a == b, 'ne': lambda a, b: a != b}[f](self.t, ot)
+        return SymBool(t)
+
+    def __lt__(self, o):
+        return self._cmp(o, 'lt')
+
+    def __le__(self, o):
+        return self._cmp(o, 'le')
+
+    def __gt__(self, o):
+        return self._cmp(o, 'gt')
+
+    def __ge__(self, o):
+        return self._cmp(o, 'ge')
+
+    def __eq__(self, o):
+        return self._cmp(o, 'eq')
+
+    def __ne__(self, o):
+        return self._cmp(o, 'ne')
+
+    def __hash__(self):
+        return id(self)
+
+    def __bool__(self):
+        return bool(SymBool(self.t != ZERO))
+
+    def __repr__(self):
+        return 'BVInt(%s)' % self.t
+
+
+def as_float(x):
+    """float(count): exact (counts are far below 2^53)."""
+    if isinstance(x, BVInt):
+        return PFP(z3.fpToFPUnsigned(fp.RNE, x.t, fp.F64), False)
+    if isinstance(x, fp.SymFP):
+        return PFP(x.t, False)
+    return float(x)
 
 
 class PFP(fp.SymFP):
@@ -23,47 +123,51 @@ class PFP(fp.SymFP):
     def _wrap(self, r):
         return PFP(r.t, r.integral) if isinstance(r, fp.SymFP) else r
 
+    @staticmethod
+    def _arg(o):
+        return as_float(o) if isinstance(o, BVInt) else o
+
     def __add__(self, o):
-        return self._wrap(fp.SymFP.__add__(self, o))
+        return self._wrap(fp.SymFP.__add__(self, self._arg(o)))
 
     def __radd__(self, o):
-        return self._wrap(fp.SymFP.__radd__(self, o))
+        return self._wrap(fp.SymFP.__radd__(self, self._arg(o)))
 
     def __sub__(self, o):
-        return self._wrap(fp.SymFP.__sub__(self, o))
+        return self._wrap(fp.SymFP.__sub__(self, self._arg(o)))
 
     def __rsub__(self, o):
-        return self._wrap(fp.SymFP.__rsub__(self, o))
+        return self._wrap(fp.SymFP.__rsub__(self, self._arg(o)))
 
     def __mul__(self, o):
-        return self._wrap(fp.SymFP.__mul__(self, o))
+        return self._wrap(fp.SymFP.__mul__(self, self._arg(o)))
 
     def __rmul__(self, o):
-        return self._wrap(fp.SymFP.__rmul__(self, o))
+        return self._wrap(fp.SymFP.__rmul__(self, self._arg(o)))
 
     def __truediv__(self, o):
-        return self._wrap(fp.SymFP.__truediv__(self, o))
+        return self._wrap(fp.SymFP.__truediv__(self, self._arg(o)))
 
     def __rtruediv__(self, o):
-        return self._wrap(fp.SymFP.__rtruediv__(self, o))
+        return self._wrap(fp.SymFP.__rtruediv__(self, self._arg(o)))
 
     def __le__(self, o):
-        return SymBool(fp.SymFP.__le__(self, o))
+        return SymBool(fp.SymFP.__le__(self, self._arg(o)))
 
     def __lt__(self, o):
-        return SymBool(fp.SymFP.__lt__(self, o))
+        return SymBool(fp.SymFP.__lt__(self, self._arg(o)))
 
     def __ge__(self, o):
-        return SymBool(fp.SymFP.__ge__(self, o))
+        return SymBool(fp.SymFP.__ge__(self, self._arg(o)))
 
     def __gt__(self, o):
-        return SymBool(fp.SymFP.__gt__(self, o))
+        return SymBool(fp.SymFP.__gt__(self, self._arg(o)))
 
     def __eq__(self, o):
-        return SymBool(fp.SymFP.__eq__(self, o))
+        return SymBool(fp.SymFP.__eq__(self, self._arg(o)))
 
     def __ne__(self, o):
-        return SymBool(fp.SymFP.__ne__(self, o))
+        return SymBool(fp.SymFP.__ne__(self, self._arg(o)))
 
     def __hash__(self):
         return id(self)
@@ -76,21 +180,18 @@ class StrOf(object):
         self.v = v
 
 
-class Parts(object):
-    """''.join([...]) result with symbolic parts."""
-
-    def __init__(self, parts):
-        self.parts = parts
-
-
-class _Joiner(object):
-    pass
-
-
 def sym_str(x):
-    if isinstance(x, fp.SymFP):
+    if isinstance(x, (fp.SymFP, BVInt)):
         return StrOf(x)
     return str(x)
+
+
+def sym_round(x, k=None):
+    if isinstance(x, BVInt):
+        return x
+    if isinstance(x, fp.SymFP):
+        return PFP(fp.sym_round(x, k).t, k is None)
+    return round(x) if k is None else round(x, k)
 
 
 class _Unique(object):
@@ -109,31 +210,36 @@ class _Nulls(object):
 
 
 class _Col(object):
-    def __init__(self, u, m, n=None):
-        self.u, self.m, self.n = u, m, n
+    def __init__(self, u, m):
+        self.u, self.m = u, m
 
     def unique(self):
         return _Unique(self.u)
 
+    def nunique(self, dropna=True):
+        d = BVInt(z3.If(z3.UGT(self.m.t, ZERO), self.u.t - ONE, self.u.t))
+        return d if dropna else self.u
+
     def isnull(self):
         return _Nulls(self.m, self)
 
+    isna = isnull
+
     def notnull(self):
         return _Nulls(self.m, self, True)
+
+    notna = notnull
 
     def dropna(self):
         return self[self.notnull()]
 
     def __getitem__(self, mask):
-        """column[~isnull] -> the non-missing values: u - [m>0] distinct, no missing;
-        column[isnull] -> only missing values"""
+        """column[~isnull] -> the non-missing values (u - [m>0] distinct, none missing);
+        column[isnull] -> only the missing values"""
         if isinstance(mask, _Nulls) and mask.col is self:
-            zero = PFP(fp.fpval(0.0), True)
             if mask.inverted:
-                d = PFP(z3.If(z3.fpGT(self.m.t, fp.fpval(0.0)), z3.fpSub(fp.RNE, self.u.t, fp.fpval(1.0)), self.u.t), True)
-                return _Col(d, zero)
-            one_or_zero = PFP(z3.If(z3.fpGT(self.m.t, fp.fpval(0.0)), fp.fpval(1.0), fp.fpval(0.0)), True)
-            return _Col(one_or_zero, self.m)
+                return _Col(self.nunique(True), BVInt(ZERO))
+            return _Col(BVInt(z3.If(z3.UGT(self.m.t, ZERO), ONE, ZERO)), self.m)
         raise KeyError(mask)
 
 
@@ -167,6 +273,14 @@ def sym_sum(x, *a):
     return sum(x, *a)
 
 
+def sym_max(*a):
+    if len(a) == 2 and any(isinstance(v, BVInt) for v in a):
+        # decided on the path (like Python's own max would): keeps the chosen operand as is
+        x, y = _bv(a[0]), _bv(a[1])
+        return a[0] if SymBool(z3.UGE(x, y)) else a[1]
+    return max(*a)
+
+
 class _PdProf(pdmodel.PdModule):
     @staticmethod
     def isnull(x):
@@ -174,11 +288,13 @@ class _PdProf(pdmodel.PdModule):
             return x.isnull()
         return pdmodel.isnull(x)
 
+    isna = isnull
 
-def _flatten(x):
-    """the profiler builds strings with ''.join([...]); our parts survive because join is patched
-    through a str subclass trick: we intercept at _format_statistic level instead."""
-    return x
+    @staticmethod
+    def notnull(x):
+        if isinstance(x, _Col):
+            return x.notnull()
+        return pdmodel.notnull(x)
 
 
 def make(cfg):
@@ -189,43 +305,28 @@ def make(cfg):
     def h(c):
         type(c).fresh_mode = True
         prof = repo.mod('profiler.profiler')
-        n = PFP(z3.FP(c.fresh_name('n'), fp.F64), True)
-        c.names[str(n.t)] = n.t
-        top = float(2 ** B)
-        c._assert(z3.And(z3.fpGEQ(n.t, fp.fpval(1.0)), z3.fpLEQ(n.t, fp.fpval(top)),
-                         z3.fpEQ(z3.fpRoundToIntegral(fp.RNE, n.t), n.t)))
+        n = BVInt(z3.BitVec(c.fresh_name('n'), W))
+        c._assert(z3.And(z3.UGE(n.t, ONE), z3.ULE(n.t, z3.BitVecVal(2 ** B, W))))
         counts = {}
         for a in attrs:
-            u = PFP(z3.FP(c.fresh_name('u_' + a), fp.F64), True)
-            m = PFP(z3.FP(c.fresh_name('m_' + a), fp.F64), True)
-            for v in (u, m):
-                c._assert(z3.fpEQ(z3.fpRoundToIntegral(fp.RNE, v.t), v.t))
-            nm = z3.fpSub(fp.RNE, n.t, m.t)                      # non-missing rows (exact)
-            has_m = z3.fpGT(m.t, fp.fpval(0.0))
-            dist_nm = z3.If(has_m, z3.fpSub(fp.RNE, u.t, fp.fpval(1.0)), u.t)
-            c._assert(z3.And(z3.fpGEQ(m.t, fp.fpval(0.0)), z3.fpLEQ(m.t, n.t),
-                             z3.fpLEQ(dist_nm, nm),
-                             z3.If(z3.fpGT(nm, fp.fpval(0.0)), z3.fpGEQ(dist_nm, fp.fpval(1.0)),
-                                   z3.fpEQ(dist_nm, fp.fpval(0.0)))))
+            u = BVInt(z3.BitVec(c.fresh_name('u_' + a), W))
+            m = BVInt(z3.BitVec(c.fresh_name('m_' + a), W))
+            nm = n.t - m.t                                  # non-missing rows
+            has_m = z3.UGT(m.t, ZERO)
+            dist_nm = z3.If(has_m, u.t - ONE, u.t)
+            c._assert(z3.And(z3.ULE(m.t, n.t), z3.ULE(u.t, n.t), z3.Implies(has_m, z3.UGE(u.t, ONE)),
+                             z3.ULE(dist_nm, nm),
+                             z3.If(z3.UGT(nm, ZERO), z3.UGE(dist_nm, ONE), dist_nm == ZERO)))
             counts[a] = (u, m)
         table = ProfTable(attrs, n, counts)
         pa = profile_attrs[int(c.int_var('pa', 0, len(profile_attrs) - 1))] if len(profile_attrs) > 1 \
             else profile_attrs[0]
         want_attrs = list(attrs) if pa is None else list(pa)
-        formatted = []
-
-        def fmt(stat, pct):
-            formatted.append((stat, pct))
-            return ('STAT', len(formatted) - 1)
-
-        class JoinStr(str):
-            pass
         b = dict(repo.model_bindings())
         b.update({('profiler.profiler', 'pd'): _PdProf, ('profiler.profiler', 'len'): sym_len,
-             ('profiler.profiler', 'sum'): sym_sum, ('profiler.profiler', 'float'): fp.sym_float,
-             ('profiler.profiler', 'round'): lambda x, k=None: PFP(fp.sym_round(x, k).t)
-             if isinstance(x, fp.SymFP) else round(x, k),
-             ('profiler.profiler', 'str'): sym_str})
+                  ('profiler.profiler', 'sum'): sym_sum, ('profiler.profiler', 'float'): as_float,
+                  ('profiler.profiler', 'round'): sym_round, ('profiler.profiler', 'max'): sym_max,
+                  ('profiler.profiler', 'str'): sym_str})
         fp.begin_side()
         real_fmt = prof._format_statistic
         seen_fmt = []
@@ -241,11 +342,10 @@ def make(cfg):
         def detail(clause, msg, a):
             def mk(mdl):
                 def val(x):
-                    return fp.fp_to_float(mdl.eval(x.t, model_completion=True))
+                    return mdl.eval(x.t, model_completion=True).as_long()
                 return {'prop': 'C17', 'clause': clause, 'msg': msg, 'harness': 'h_prof',
                         'site': 'profile_table_for_join',
-                        'n': int(val(n)), 'attr': a, 'u': int(val(counts[a][0])),
-                        'm': int(val(counts[a][1]))}
+                        'n': val(n), 'attr': a, 'u': val(counts[a][0]), 'm': val(counts[a][1])}
             return mk
         with repo.patched(b):
             try:
@@ -262,37 +362,37 @@ def make(cfg):
             msg = 'rows indexed by %r with columns %r; expected one row per profiled attribute %r' % (
                 list(out.index), list(out.columns), want_attrs)
             raise Violation('C17/shape: ' + msg, detail('shape', msg, want_attrs[0]))
+        nf = z3.fpToFPUnsigned(fp.RNE, n.t, fp.F64)
         for i, a in enumerate(want_attrs):
             u, m = counts[a]
             row = out._rows[i]
             comment = row[2]
             is_key = (comment == KEY_COMMENT)
-            warns = isinstance(comment, str) and comment.startswith('Joining on this attribute will ignore') \
-                or (not isinstance(comment, str))
-            if not isinstance(comment, str):
-                warns = True          # built from symbolic parts => the warning branch
-                is_key = False
-            # the formatted statistics must be (u, round(u/n*100,2)) and (m, round(m/n*100,2))
-            mine = [(x, PFP(fp.round_k(z3.fpMul(fp.RNE, z3.fpDiv(fp.RNE, x.t, n.t), fp.fpval(100.0)), 2)))
-                    for x in (u, m)]
+            warns = isinstance(comment, str) and comment.startswith('Joining on this attribute will ignore')
             got = seen_fmt[2 * i:2 * i + 2]
             if len(got) != 2:
                 raise Violation('C17/format', detail('format', 'statistics not formatted', a))
-            for (gs, gp), (ws, wp) in zip(got, mine):
-                if isinstance(gs, fp.SymFP) and isinstance(gp, fp.SymFP) and gs.t.eq(ws.t) and \
-                        z3.simplify(gp.t).eq(z3.simplify(wp.t)):
-                    continue          # syntactically the expected terms
-                # two separate decisions: the count first (cheap), the percentage only afterwards
-                if not (isinstance(gs, fp.SymFP) and gs.t.eq(ws.t)):
-                    if not SymBool(z3.fpEQ(fp.lift(gs), ws.t)):
-                        msg = 'a reported count is not the exact count'
-                        raise Violation('C17/format: ' + msg, detail('format', msg, a))
-                if not (isinstance(gp, fp.SymFP) and z3.simplify(gp.t).eq(z3.simplify(wp.t))):
-                    if not SymBool(z3.fpEQ(fp.lift(gp), wp.t)):
-                        msg = 'a reported percentage is not the 2-decimal percentage of the exact count'
-                        raise Violation('C17/format: ' + msg, detail('format', msg, a))
-            key_ok = SymBool(z3.And(z3.fpEQ(u.t, n.t), z3.fpEQ(m.t, fp.fpval(0.0))))
-            has_missing = SymBool(z3.fpGT(m.t, fp.fpval(0.0)))
+            for (gs, gp), x in zip(got, (u, m)):
+                # the count first (bit-vectors, cheap), then the percentage
+                if isinstance(gs, BVInt):
+                    same_count = SymBool(gs.t == x.t)
+                elif isinstance(gs, fp.SymFP):
+                    same_count = SymBool(z3.fpEQ(gs.t, z3.fpToFPUnsigned(fp.RNE, x.t, fp.F64)))
+                else:
+                    same_count = SymBool(z3.BitVecVal(int(gs), W) == x.t)
+                if not same_count:
+                    msg = 'a reported count is not the exact count'
+                    raise Violation('C17/format: ' + msg, detail('format', msg, a))
+                xf = z3.fpToFPUnsigned(fp.RNE, x.t, fp.F64)
+                want = fp.round_k(z3.fpMul(fp.RNE, z3.fpDiv(fp.RNE, xf, nf), fp.fpval(100.0)), 2)
+                if isinstance(gp, fp.SymFP) and z3.simplify(gp.t).eq(z3.simplify(want)):
+                    continue          # syntactically the documented expression
+                gpt = z3.fpToFPUnsigned(fp.RNE, gp.t, fp.F64) if isinstance(gp, BVInt) else fp.lift(gp)
+                if not SymBool(z3.fpEQ(gpt, want)):
+                    msg = 'a reported percentage is not the 2-decimal percentage of the exact count'
+                    raise Violation('C17/format: ' + msg, detail('format', msg, a))
+            key_ok = SymBool(z3.And(u.t == n.t, m.t == ZERO))
+            has_missing = SymBool(z3.UGT(m.t, ZERO))
             if is_key:
                 if not key_ok:
                     msg = 'attribute recommended as key although not all values are distinct and present'
@@ -301,11 +401,11 @@ def make(cfg):
                 if key_ok:
                     msg = 'all values distinct and none missing, but the attribute is not recommended as key'
                     raise Violation('C17/key-comment: ' + msg, detail('key-comment', msg, a))
-            if warns and not is_key:
+            if warns:
                 if not has_missing:
                     msg = 'ignored-rows warning although no value is missing'
                     raise Violation('C17/missing-comment: ' + msg, detail('missing-comment', msg, a))
-            else:
+            elif not is_key:
                 if has_missing:
                     msg = 'at least one value is missing but there is no ignored-rows warning'
                     raise Violation('C17/missing-comment: ' + msg, detail('missing-comment', msg, a))
